@@ -653,7 +653,15 @@ def check_hgr(ctx, res: Result):
         res.check(bool(same), "S-HGR", load.short, norm(w), "paired", "a weight is recorded without its hyperedge (weights and hyperedges get out of step)", loc(load, w))
     for e in grows.get(el_name, []):
         blk = v.parent.get(id(v.stmt_of(e)))
-        in_weighted = isinstance(blk, ast.If) and any(isinstance(x, ast.Constant) and x.value == 1 for x in ast.walk(blk.test)) and any(isinstance(o, ast.Eq) for c in ast.walk(blk.test) if isinstance(c, ast.Compare) for o in c.ops) and v.stmt_of(e) in blk.body
+        in_weighted = False
+        if isinstance(blk, ast.If) and v.stmt_of(e) in blk.body:
+            from .rules_container import _atoms
+
+            # the weighted branch: an atom `<mode> % 10 == 1` that holds (not negated) on this arm
+            for atom, pol in _atoms(v.inline(blk.test) if isinstance(blk.test, ast.Name) else blk.test, True):
+                if isinstance(atom, ast.Compare) and len(atom.ops) == 1 and isinstance(atom.ops[0], (ast.Eq, ast.NotEq)) and any(isinstance(x, ast.Constant) and x.value == 1 for x in ast.walk(atom)) and any(isinstance(x, ast.BinOp) and isinstance(x.op, ast.Mod) for x in ast.walk(atom)):
+                    if pol == isinstance(atom.ops[0], ast.Eq):
+                        in_weighted = True
         if in_weighted:
             same = [w for w in grows.get(wl_name, []) if v.parent.get(id(v.stmt_of(w))) is blk]
             res.check(bool(same), "S-HGR", load.short, norm(e), "paired", "a weighted hyperedge is recorded without its weight", loc(load, e))
